@@ -14,7 +14,8 @@ PROFILES = {
     'C03': dict(new=8, set=50, get=4, obs=14, bindI=6, bindE=0, reset=1, dele=2, move=3, evall=0, bev=0, hold=0, unobs=3, fault=0, user=0),
     'C02': dict(ops=0.4, new=8, set=40, get=4, obs=8, bindI=18, bindE=0, reset=2, dele=1, move=8, evall=0, bev=0, hold=0, unobs=1, fault=0, user=0),
     'C06': dict(ops=0.2, obsreset=0.3, new=8, set=34, get=4, obs=8, bindI=2, bindE=16, reset=3, dele=2, move=2, evall=14, bev=4, hold=2, unobs=1, fault=0, user=0),
-    'C07': dict(new=6, set=30, get=6, obs=8, bindI=12, bindE=8, reset=10, dele=1, move=2, evall=6, bev=2, hold=0, unobs=1, fault=8, user=0,
+    # obsreset: a binding reset or replaced from inside an evaluateAll pass must never be evaluated again either (seeded change C07-6)
+    'C07': dict(obsreset=0.3, new=6, set=30, get=6, obs=9, bindI=12, bindE=10, reset=10, dele=1, move=2, evall=8, bev=2, hold=0, unobs=1, fault=8, user=0,
                 rebind=6),
     # obsreset: observers that reset() a later binding - from inside an evaluateAll pass this destroys a registered Binding while the
     # registry is being walked (seeded change C10-5: a pass over a snapshot of the registry evaluates the destroyed Binding)
